@@ -13,6 +13,7 @@ import (
 	"golang.org/x/tools/go/packages"
 
 	"verif/checker/internal/eval"
+	"verif/checker/internal/flow"
 	"verif/checker/internal/ref"
 )
 
@@ -166,6 +167,7 @@ func runC17(c *Ctx) {
 	c.ruleUnits()
 	c.ruleHTMLTraits()
 	c.ruleMimeAndSVG()
+	c.ruleBooleanWriter()
 }
 
 // R17.H
@@ -557,6 +559,9 @@ func (c *Ctx) ruleMimeAndSVG() {
 var _ = ast.Inspect
 
 func init() {
+	mutant(&Mutant{Name: "c17-value-equal-to-name-treated-as-boolean", Property: "C17", File: "html/html.go",
+		Old: "if 0 < len(val) && attr.Traits&booleanAttr == 0 {", New: "if 0 < len(val) && attr.Traits&booleanAttr == 0 && !parse.EqualFold(val, attr.Text) {",
+		Rule: "R17.boolwriter", Construct: "value written unless the table says boolean"})
 	mutant(&Mutant{Name: "c17-entity-typo", Property: "C17", File: "html/table.go",
 		Old: "\"Aacute\":                          []byte(\"&#193;\"),", New: "\"Aacute\":                          []byte(\"&#192;\"),",
 		Rule: "R17.entities", Construct: "html.EntitiesMap[Aacute]"})
@@ -575,4 +580,68 @@ func init() {
 	mutant(&Mutant{Name: "c17-hash-swap", Property: "C17", File: "css/hash.go",
 		Old: "Hash = 0x7a209 // aliceblue", New: "Hash = 0x37205 // aliceblue",
 		Rule: "R17.hash", Construct: "css.Hash/Aliceblue"})
+}
+
+// R17.boolwriter: the table, and nothing else, says which attributes are boolean.
+func (c *Ctx) ruleBooleanWriter() {
+	const rule = "R17.boolwriter"
+	c.R.Rule(rule, "the booleanAttr trait of html.attrMap is checked entry by entry against the HTML standard (R17.htmltraits); it only means something if the attribute writer consults the table and nothing else. In html.(*Minifier).Minify the write of `=` (and with it the value) is guarded by a condition that — single-assignment booleans expanded — is built from the length of the value and `….Traits&booleanAttr` only: no call other than len, no comparison of the value with anything. A writer that also drops values that `look boolean` (value equal to the name) turns `<input name=name>`, `<a download=Download>` into value-less attributes")
+	pk := c.pkg(rule, "html")
+	if pk == nil {
+		return
+	}
+	info := pk.TypesInfo
+	fd := c.fn(rule, pk, "Minifier.Minify")
+	if fd == nil {
+		return
+	}
+	g := c.graph(pk, fd)
+	lc := newLinCtx(c, info, g)
+	n := 0
+	for _, y := range g.Nodes {
+		a := y.Ast()
+		if a == nil || y.Kind != flow.KStmt || !strings.Contains(nospace(str0(a)), "Write(isBytes)") {
+			continue
+		}
+		n++
+		var foreign []string
+		sawTrait := false
+		var inspect func(e ast.Expr, depth int)
+		inspect = func(e ast.Expr, depth int) {
+			ast.Inspect(e, func(q ast.Node) bool {
+				switch x := q.(type) {
+				case *ast.CallExpr:
+					if id, ok := x.Fun.(*ast.Ident); ok && id.Name == "len" {
+						return false
+					}
+					foreign = append(foreign, nospace(str(x)))
+					return false
+				case *ast.SelectorExpr:
+					if x.Sel.Name == "Traits" {
+						sawTrait = true
+						return false
+					}
+				case *ast.Ident:
+					o := info.Uses[x]
+					if v, isVar := o.(*types.Var); isVar && !v.IsField() && v.Parent() != nil && v.Parent() != v.Pkg().Scope() {
+						if b, isB := v.Type().Underlying().(*types.Basic); isB && b.Kind() == types.Bool && depth < 2 && len(lc.assign[o]) == 1 {
+							if d, ok := lc.assign[o][0].Stmt.(*ast.AssignStmt); ok && len(d.Rhs) == 1 {
+								inspect(d.Rhs[0], depth+1)
+							}
+						}
+					}
+				}
+				return true
+			})
+		}
+		// the innermost enclosing if whose body holds the write
+		for p := c.P.Parent(a); p != nil; p = c.P.Parent(p) {
+			if ifs, ok := p.(*ast.IfStmt); ok && ifs.Body.Pos() <= a.Pos() && a.End() <= ifs.Body.End() {
+				inspect(ifs.Cond, 0)
+				break
+			}
+		}
+		c.R.Check(len(foreign) == 0 && sawTrait, rule, fmt.Sprintf("html.Minifier.Minify/value written unless the table says boolean#%d", n), c.pos(a), "guard over len(value) and Traits&booleanAttr only", "whether an attribute keeps its value also depends on "+strings.Join(foreign, ", ")+": attributes the table does not mark boolean lose their value when it happens to satisfy that test")
+	}
+	c.R.Floor(rule, "writes of `=` in the attribute writer", n, 1)
 }
